@@ -58,8 +58,15 @@ previous data set was sent back, which may already have enabled the reader's nex
 /- The third component: a failed `reader_init` has been logged (`ri0`) but the reader thread has not yet gone away –
 the log entry is written inside the closure, the channel ends are dropped only when the thread function returns, so
 sends of the main thread may still succeed in between.  The model's reader step `start → exited` is then taken later,
-as an internal step. -/
-abbrev ASt := St × Option (Nat × Nat) × Bool
+as an internal step.
+
+The fourth component: a `dataset_init` call has been logged (`di`) but what the main thread does with the new data set
+– the `send` into the empty-set channel, which succeeds or fails depending on whether the reader thread still exists at
+THAT moment – has not happened yet.  The model's main step `init i` does both at once; in the code other threads run in
+between (observed: `di1, ri0, di1, cn, cx, ret2` with `queue_len = 2` – the first set was created while the reader
+thread still existed, the send found it gone).  The step is then taken later, as an internal step; nothing else of the
+main thread happens in between. -/
+abbrev ASt := St × Option (Nat × Nat) × Bool × Bool
 abbrev AStSet := Std.HashSet ASt
 
 def isMain : Tid → Bool
@@ -71,20 +78,28 @@ def isRecycle (s : St) : Bool :=
   | .recycle _ => true
   | _ => false
 
+def isInit (s : St) : Bool :=
+  match s.mn with
+  | .init _ => true
+  | _ => false
+
 /-- internal steps of the acceptor from `(s, pending)` -/
 def tauSteps (c : Cfg) (a : ASt) : List ASt :=
-  let (s, pend, riPend) := a
+  let (s, pend, riPend, diPend) := a
   let late : List ASt :=
-    if riPend then ((step c s .reader).map fun s' => (s', pend, false)).toList else []
-  late ++ (tids s).filterMap fun t =>
+    if riPend then ((step c s .reader).map fun s' => (s', pend, false, diPend)).toList else []
+  let lateDi : List ASt :=
+    if diPend then ((step c s .main).map fun s' => (s', pend, riPend, false)).toList else []
+  late ++ lateDi ++ (tids s).filterMap fun t =>
     if isMain t then
-      if pend.isSome then none                      -- the consumer logs `cr` before doing anything else
+      if diPend then none                           -- the main thread's only step is the pending one
+      else if pend.isSome then none                 -- the consumer logs `cr` before doing anything else
       else if isRecycle s then
-        (step c s t).map fun s' => (s', s.delivered.getLast?, riPend)
-      else if (label c s t).isNone then (step c s t).map fun s' => (s', none, riPend)
+        (step c s t).map fun s' => (s', s.delivered.getLast?, riPend, false)
+      else if (label c s t).isNone then (step c s t).map fun s' => (s', none, riPend, false)
       else none
     else if riPend then none                        -- the reader's only step is the pending one
-    else if (label c s t).isNone then (step c s t).map fun s' => (s', pend, riPend)
+    else if (label c s t).isNone then (step c s t).map fun s' => (s', pend, riPend, diPend)
     else none
 
 def tauClosure (c : Cfg) (fuel : Nat) (start : List ASt) : AStSet := Id.run do
@@ -106,26 +121,29 @@ def tauClosure (c : Cfg) (fuel : Nat) (start : List ASt) : AStSet := Id.run do
 
 def afterEvent (c : Cfg) (states : AStSet) (e : Ev) : List ASt := Id.run do
   let mut out : List ASt := []
-  for (s, pend, riPend) in states do
+  for (s, pend, riPend, diPend) in states do
     match e, pend with
-    | .cr d k, some p => if p == (d, k) then out := (s, none, riPend) :: out
+    | .cr d k, some p => if p == (d, k) && !diPend then out := (s, none, riPend, false) :: out
     | .cr _ _, none => pure ()
     | _, _ =>
       -- a failed reader initialisation may be logged before the thread is gone
       if e == .ri false && !riPend && label c s .reader == some e then
-        out := (s, pend, true) :: out
+        out := (s, pend, true, diPend) :: out
+      -- a data set may be created before it is sent
+      if !diPend && pend.isNone && isInit s && label c s .main == some e then
+        out := (s, pend, riPend, true) :: out
       for t in tids s do
         let isReader := match t with | .reader => true | _ => false
-        if !(isMain t && (pend.isSome || isRecycle s)) && !(riPend && isReader) && label c s t == some e then
+        if !(isMain t && (pend.isSome || isRecycle s || diPend)) && !(riPend && isReader) && label c s t == some e then
           match step c s t with
-          | some s' => out := (s', pend, riPend) :: out
+          | some s' => out := (s', pend, riPend, diPend) :: out
           | none => pure ()
   return out
 
 /-- `none` = accepted (and a final state is reachable at the end); `some i` = the trace is not a
 behaviour of the model: event `i` (0-based) cannot happen, `i = length` = no final state -/
 def accept (c : Cfg) (trace : List Ev) : Option Nat := Id.run do
-  let mut cur : List ASt := [(init, none, false)]
+  let mut cur : List ASt := [(init, none, false, false)]
   let mut i := 0
   for e in trace do
     let cl := tauClosure c 100000 cur
